@@ -1,4 +1,5 @@
 import GqlgenVerif.Model.Rewrite
+import GqlgenVerif.Model.PruneWalk
 /-!
 # The property C19 written directly (Spec), executable
 
@@ -11,24 +12,29 @@ implementation's real output; `Props/C19.lean` proves it empty for the model's o
 * `method recv name what`        – a resolver method whose field still exists lost its body / named
                                    results / doc comment (`what`), or is missing altogether
 * `importLost f alias path`      – an import whose name the new file still refers to is gone
+* `unusedImport f alias path`    – the new file imports a package under a name no selector of the file can refer
+                                   to (every `name.Sel` of the file has a parameter / local / … of the file as its
+                                   base, or there is none): "imported and not used", the package no longer compiles
+                                   - unless the same file already had that import unused before
 * `declLost f idx`               – another declaration is neither kept verbatim, nor kept as a resolver
                                    method, nor present in the WARNING block of the same file
 * `fileGone f`
 -/
 namespace GqlgenVerif.Rewrite.Spec
-open GqlgenVerif.Rewrite
+open GqlgenVerif.Rewrite GqlgenVerif.PruneWalk
 
 structure AfterFile where
   file : File
   remaining : Text     -- text of the WARNING block, comment markers removed
   parseOK : Bool
-  used : List String   -- package names the file's code refers to
+  sels : List SelBase  -- every selector base `x` of an `x.Sel` in the file, with whether a declaration of the file binds it
   deriving Repr, Inhabited
 
 inductive Violation
   | notValidGo (file : String)
   | method (recv name what : String)
   | importLost (file alias path : String)
+  | unusedImport (file alias path : String)
   | declLost (file : String) (idx : Nat) (name : String)
   | fileGone (file : String)
   deriving DecidableEq, Repr
@@ -69,8 +75,26 @@ def importViolations (before : Pkg) (after : List AfterFile) : List Violation :=
     | some a =>
       f.imports.flatMap fun i =>
         let n := localOf i
-        if (n == "_" || n == "." || a.used.contains n) && !(a.file.imports.any fun j => j.path == i.path && localOf j == n)
+        if (n == "_" || n == "." || (pkgRefs a.sels).contains n) && !(a.file.imports.any fun j => j.path == i.path && localOf j == n)
         then [.importLost f.name i.alias i.path] else []
+
+/-- imports of a file that nothing in the file can refer to (Go: "imported and not used") -/
+def unusedBy (nameOf : Import → String) (imports : List Import) (sels : List SelBase) : List Import :=
+  imports.filter fun i => let n := nameOf i; !(n == "_" || n == "." || (pkgRefs sels).contains n)
+
+/-- … of a file as go/parser reads it: the name an import spec binds is its alias, else the package name -/
+def unusedIn (imports : List Import) (sels : List SelBase) : List Import := unusedBy localOf imports sels
+
+/-- a file must not come back with an import it cannot use (unless it had it, unused, before: then the package
+did not compile before either). `bsels`: the selector bases of the files of `before`, by file name. -/
+def unusedImportViolations (before : Pkg) (bsels : List (String × List SelBase)) (after : List AfterFile) : List Violation :=
+  after.flatMap fun a =>
+    let was : List Import := match before.find? (·.name == a.file.name) with
+      | some f => unusedIn f.imports ((bsels.lookup f.name).getD [])
+      | none => []
+    (unusedIn a.file.imports a.sels).flatMap fun i =>
+      if was.any (fun j => j.path == i.path && localOf j == localOf i) then []
+      else [.unusedImport a.file.name i.alias i.path]
 
 def keptAsMethod (cfg : Cfg) (sch : Schema) (after : Pkg) (d : Decl) : Bool :=
   d.isFunc && (emittedReqs cfg sch).any (fun r => isMethod r.recv r.name d) &&
@@ -91,11 +115,12 @@ def declViolations (cfg : Cfg) (before : Pkg) (sch : Schema) (after : List After
         else [.declLost f.name dj.2 d.name]
 
 /-- when a file does not parse nothing else can be read off the output -/
-def violations (cfg : Cfg) (before : Pkg) (sch : Schema) (after : List AfterFile) : List Violation :=
+def violations (cfg : Cfg) (before : Pkg) (bsels : List (String × List SelBase)) (sch : Schema) (after : List AfterFile) : List Violation :=
   if after.any (!·.parseOK) then (after.filter (!·.parseOK)).map (fun a => Violation.notValidGo a.file.name)
   else
     methodViolations cfg before sch (afterPkg after) ++
     importViolations before after ++
+    unusedImportViolations before bsels after ++
     declViolations cfg before sch after
 
 end GqlgenVerif.Rewrite.Spec
